@@ -2,6 +2,7 @@ package main
 
 import (
 	"bytes"
+	"context"
 	"encoding/binary"
 	"fmt"
 	"sort"
@@ -59,6 +60,7 @@ type c06Arrival struct {
 }
 
 type c06Data struct {
+	License2  string     `json:"second_life_license,omitempty"`
 	Queue     bool       `json:"queue_mode"`
 	QueueSize int        `json:"queue_size"`
 	Faulty    bool       `json:"faulty"`
@@ -246,6 +248,13 @@ func c06Body(faulty bool) func(rc *RunCtx) {
 			d.QueueSize = []int{1000, 1, 2, 5}[simrt.Choose(4)]
 			opts = append(opts, oneway.WithUseQueue(), oneway.WithQueueSize(int32(d.QueueSize)))
 		}
+		// the application may own the client's context (and cancel it itself before Destroy)
+		var appCancel context.CancelFunc
+		if simrt.ChanceF(1, 2) {
+			ctx, cancel := context.WithCancel(context.Background())
+			appCancel = cancel
+			opts = append(opts, oneway.WithContext(ctx, cancel))
+		}
 		client := oneway.GetOneWayTcpClient(opts...)
 		simrt.OnReset(func() { client.Destroy() })
 
@@ -297,6 +306,9 @@ func c06Body(faulty bool) func(rc *RunCtx) {
 			p := c06MakePack(it.id, it.kind, it.size, it.pcode)
 			body := pack.ToBytesPack(p)
 			lic := c06DefaultLicense
+			if d.License2 != "" {
+				lic = d.License2
+			}
 			var o []wnet.TcpClientOption
 			if it.license != "" {
 				lic = it.license
@@ -408,9 +420,23 @@ func c06Body(faulty bool) func(rc *RunCtx) {
 			// of the recovery phase go through it
 			simrt.Note("application calls Destroy() and GetOneWayTcpClient() again")
 			simrt.Probe("client_destroyed_and_recreated")
+			if appCancel != nil {
+				appCancel() // the application stops its own context first
+			}
 			client.Destroy()
 			simrt.Settle(int64(6 * time.Second)) // the old background goroutine sees the cancel at its next wake-up
-			client = oneway.GetOneWayTcpClient(opts...)
+			// the new client gets options of its own: another default license (and a fresh
+			// context if the application owns it)
+			d.License2 = "second-life-license"
+			opts2 := []oneway.OneWayTcpClientOption{oneway.WithServers([]string{addrA, addrB}), oneway.WithLicense(d.License2), oneway.WithPcode(4242)}
+			if d.Queue {
+				opts2 = append(opts2, oneway.WithUseQueue(), oneway.WithQueueSize(int32(d.QueueSize)))
+			}
+			if appCancel != nil {
+				ctx2, cancel2 := context.WithCancel(context.Background())
+				opts2 = append(opts2, oneway.WithContext(ctx2, cancel2))
+			}
+			client = oneway.GetOneWayTcpClient(opts2...)
 		}
 		// ---- heal: faults stop, every server is up ----
 		d.healed = true
